@@ -138,7 +138,16 @@ func init() {
 			return tuple{strLen(args[1]), iface{}}
 		},
 		"(*os.File).Close": func(fr *frame, args []value) value { return iface{} },
-		"math/rand.Seed":               extNop,
+		"math/rand.Seed": func(fr *frame, args []value) value {
+			// the seed given to the generator is part of what a run depends on
+			ps := fr.i.ps
+			if sv, ok := args[0].(sym); ok {
+				ps.lastSeed, ps.lastSeedSym, ps.seeded = sv, true, true
+			} else {
+				ps.lastSeed, ps.lastSeedSym, ps.seeded = args[0], false, true
+			}
+			return nil
+		},
 		"(*math/rand.Rand).Seed":       extNop,
 		"math/rand.globalRand":         func(fr *frame, args []value) value { return (*value)(nil) },
 		"math/rand.New":                func(fr *frame, args []value) value { v := value(structure{}); return &v },
